@@ -73,31 +73,31 @@ package handler
 //@ func Handler.HandleReadFileCritical results(err)
 //@   tags C02,C04,C05,C13
 //@   any k int
-//@   requires h != nil && h.Copier != nil && wfState(ctx) && w != nil && isconn[w] && limit >= 0
+//@   requires h != nil && h.Copier != nil && wfState(ctx) && w != nil && isconn[wsink(w)] && limit >= 0
 //@   wrapok int64(offset)
-//@   modifies fpos, limbase, wn[w], wdata[w], iofaults
+//@   modifies fpos, limbase, wn[wsink(w)], wdata[wsink(w)], iofaults
 //@   ensures[C05] fsw == old(fsw) @no-write
 //@   ensures[C13] fopen == old(fopen) @no-handle-change
-//@   ensures[C02] wn[w] >= old(wn[w]) && wn[w] <= old(wn[w]) + limit @at-most-limit
-//@   ensures[C02] old(wn[w]) <= k && k < wn[w] ==> wdata[w][k] == fcontent[ctx.State.ROFile][offset + k - old(wn[w])] @correct-prefix
-//@   ensures[C02] k < old(wn[w]) ==> wdata[w][k] == old(wdata[w][k]) @earlier-output-kept
-//@   ensures[C02] err == nil ==> wn[w] == old(wn[w]) + limit @complete-or-error
+//@   ensures[C02] wn[wsink(w)] >= old(wn[wsink(w)]) && wn[wsink(w)] <= old(wn[wsink(w)]) + limit @at-most-limit
+//@   ensures[C02] old(wn[wsink(w)]) <= k && k < wn[wsink(w)] ==> wdata[wsink(w)][k] == fcontent[ctx.State.ROFile][offset + k - old(wn[wsink(w)])] @correct-prefix
+//@   ensures[C02] k < old(wn[wsink(w)]) ==> wdata[wsink(w)][k] == old(wdata[wsink(w)][k]) @earlier-output-kept
+//@   ensures[C02] err == nil ==> wn[wsink(w)] == old(wn[wsink(w)]) + limit @complete-or-error
 
 //@ func Handler.HandleReadCD2048Critical results(err)
 //@   tags C17,C04,C05,C13
 //@   any s int
 //@   any j int
-//@   requires h != nil && h.Copier != nil && wfState(ctx) && w != nil && isconn[w]
+//@   requires h != nil && h.Copier != nil && wfState(ctx) && w != nil && isconn[wsink(w)]
 //@   cases ctx.State.CDSectorSize: 2048, 2328, 2336, 2340, 2352, 2368, 2448
-//@   modifies fpos, limbase, wn[w], wdata[w], iofaults
+//@   modifies fpos, limbase, wn[wsink(w)], wdata[wsink(w)], iofaults
 //@   ensures[C05] fsw == old(fsw) @no-write
 //@   ensures[C13] fopen == old(fopen)
-//@   ensures[C17] err == nil ==> wn[w] == old(wn[w]) + 2048 * sectorsCount @length
-//@   ensures[C17] err == nil && 0 <= s && s < sectorsCount && 0 <= j && j < 2048 ==> wdata[w][old(wn[w]) + 2048 * s + j] == fcontent[ctx.State.ROFile][24 + (startSector + s) * ctx.State.CDSectorSize + j] @user-data
-//@   ensures[C17] wn[w] >= old(wn[w]) && wn[w] <= old(wn[w]) + 2048 * sectorsCount
+//@   ensures[C17] err == nil ==> wn[wsink(w)] == old(wn[wsink(w)]) + 2048 * sectorsCount @length
+//@   ensures[C17] err == nil && 0 <= s && s < sectorsCount && 0 <= j && j < 2048 ==> wdata[wsink(w)][old(wn[wsink(w)]) + 2048 * s + j] == fcontent[ctx.State.ROFile][24 + (startSector + s) * ctx.State.CDSectorSize + j] @user-data
+//@   ensures[C17] wn[wsink(w)] >= old(wn[wsink(w)]) && wn[wsink(w)] <= old(wn[wsink(w)]) + 2048 * sectorsCount
 //@   loop 1 invariant ctx.State.ROFile != nil && cdSize(ctx.State.CDSectorSize) && 0 <= $idx && offset == 24 + (startSector + $idx) * ctx.State.CDSectorSize @offset
-//@   loop 1 invariant wn[w] == old(wn[w]) + 2048 * $idx && fsw == old(fsw) && fopen == old(fopen) && iofaults >= old(iofaults) && limbase[ctx.State.ROFile] == 0 @progress
-//@   loop 1 invariant 0 <= s && s < $idx && 0 <= j && j < 2048 ==> wdata[w][old(wn[w]) + 2048 * s + j] == fcontent[ctx.State.ROFile][24 + (startSector + s) * ctx.State.CDSectorSize + j] @user-data
+//@   loop 1 invariant wn[wsink(w)] == old(wn[wsink(w)]) + 2048 * $idx && fsw == old(fsw) && fopen == old(fopen) && iofaults >= old(iofaults) && limbase[ctx.State.ROFile] == 0 @progress
+//@   loop 1 invariant 0 <= s && s < $idx && 0 <= j && j < 2048 ==> wdata[wsink(w)][old(wn[wsink(w)]) + 2048 * s + j] == fcontent[ctx.State.ROFile][24 + (startSector + s) * ctx.State.CDSectorSize + j] @user-data
 
 //@ func Handler.HandleCreateFile results(err)
 //@   tags C05,C04,C13
@@ -114,10 +114,10 @@ package handler
 //@   any k int
 //@   requires h != nil && h.Copier != nil && ctx != nil && data != nil
 //@   wrapok int32(written)
-//@   modifies wn[ctx.State.WOFile], wdata[ctx.State.WOFile], fpos, iofaults, fsw
+//@   modifies wn[wsink(ctx.State.WOFile)], wdata[wsink(ctx.State.WOFile)], fpos, iofaults, fsw
 //@   ensures[C05] !h.AllowWrite ==> err == ErrWriteForbidden && fsw == old(fsw) && wn == old(wn) @refused
-//@   ensures[C05] err == nil ==> ctx.State.WOFile != nil && wn[ctx.State.WOFile] - old(wn[ctx.State.WOFile]) >= 0 @stored-length
-//@   ensures[C05] err == nil && old(wn[ctx.State.WOFile]) <= k && k < wn[ctx.State.WOFile] ==> wdata[ctx.State.WOFile][k] == fcontent[data][old(fpos[data]) + k - old(wn[ctx.State.WOFile])] @stored-bytes
+//@   ensures[C05] err == nil ==> ctx.State.WOFile != nil && wn[wsink(ctx.State.WOFile)] - old(wn[wsink(ctx.State.WOFile)]) >= 0 @stored-length
+//@   ensures[C05] err == nil && old(wn[wsink(ctx.State.WOFile)]) <= k && k < wn[wsink(ctx.State.WOFile)] ==> wdata[wsink(ctx.State.WOFile)][k] == fcontent[data][old(fpos[data]) + k - old(wn[wsink(ctx.State.WOFile)])] @stored-bytes
 //@   ensures[C13] fopen == old(fopen)
 
 //@ func Handler.HandleDeleteFile results(err)
